@@ -1,6 +1,7 @@
 package main
 
 import (
+	"go/token"
 	"fmt"
 	"go/constant"
 	"go/types"
@@ -13,6 +14,11 @@ import (
 // shared: opchild deposit finalisation
 
 // handler-level view: helpers with their own rules stay opaque
+// parameter roles of the two private deposit helpers, by type: their names, order and
+// packaging (separate parameters or a parameter object) are not part of any property
+var hookRoles = map[string]string{"uint64": "hookMaxGas", "[]byte": "data", "sdk.Context": "ctx", "context.Context": "ctx"}
+var depRoles = map[string]string{"context.Context": "ctx", "sdk.Context": "ctx", "sdk.AccAddress": "toAddr", "sdk.Coins": "coins"}
+
 var ftdPO = PO{Params: hParams, NoInline: []string{".Validate", "checkBridgeExecutorPermission", "handleBridgeHook", "safeDepositToken", "setDenomMetadata"}}
 
 func (c *Ctx) constVal(pkg, name string) string {
@@ -408,17 +414,30 @@ func propC07(c *Ctx) {
 			f := c.Method(childKeeper, nm.t, nm.m)
 			o2.Sites++
 			res := f.Signature.Results()
-			if res.Len() != 2 || types.TypeString(res.At(0).Type(), nil) != "bool" || types.TypeString(res.At(1).Type(), nil) != "string" {
+			var comps []string
+			for i := 0; i < res.Len(); i++ {
+				if st, ok := carrierStruct(res.At(i).Type()); ok { // a result object: its components
+					for k := 0; k < st.NumFields(); k++ {
+						comps = append(comps, types.TypeString(st.Field(k).Type(), nil))
+					}
+					continue
+				}
+				comps = append(comps, types.TypeString(res.At(i).Type(), nil))
+			}
+			if len(comps) != 2 || comps[0] != "bool" || comps[1] != "string" {
 				o2.Fail(c.W.Pos(f.Pos()), nm.m+" result type changed to "+res.String(), nil)
 			}
 		}
 	})
 
 	c.Rule("C07.R2", func() {
+		for _, nm := range []struct{ t, m string }{{"MsgServer", "safeDepositToken"}, {"Keeper", "handleBridgeHook"}} {
+			successAfterCommit(c, c.Ob("C07.R2", nm.m+": inside the cached region the success flag is raised only after commit() (a panicking commit must report failure)"), c.Method(childKeeper, nm.t, nm.m))
+		}
 		sd := c.Method(childKeeper, "MsgServer", "safeDepositToken")
 		o := c.Ob("C07.R2", "safeDepositToken: mint+send on the cache context; commit only after both succeeded; success only after commit")
 		o3 := c.Ob("C07.R3", "safeDepositToken: a recovering defer precedes mint, send and commit")
-		for _, p := range c.Paths(sd, PO{Params: []string{"ms", "ctx", "toAddr", "coins"}}) {
+		for _, p := range c.Paths(sd, PO{Params: []string{"ms"}, Roles: depRoles}) {
 			o.Paths++
 			o3.Paths++
 			o.Facts += p.NFacts()
@@ -500,7 +519,7 @@ func propC07(c *Ctx) {
 		oh := c.Ob("C07.R2", "handleBridgeHook: handlers on the cache context; commit only after every handler succeeded; success only after commit")
 		oh3 := c.Ob("C07.R3", "handleBridgeHook: a recovering defer precedes decoder, ante decorators, handlers and commit")
 		og := c.Ob("C07.R4", "handleBridgeHook: zero max gas runs nothing; inner context metered by min(remaining, hookMaxGas); consumed gas charged to the outer meter")
-		for _, p := range c.Paths(hb, PO{Params: []string{"k", "ctx", "data", "hookMaxGas"}, Visits: 3}) {
+		for _, p := range c.Paths(hb, PO{Params: []string{"k"}, Roles: hookRoles, Visits: 3}) {
 			oh.Paths++
 			oh3.Paths++
 			og.Paths++
@@ -554,8 +573,12 @@ func propC07(c *Ctx) {
 				}
 				oh.Sites++
 				oh3.Sites++
-				if zeroGas {
-					og.Fail(c.evPos(ev), kind+" runs although hookMaxGas == 0", c.Dump(p, i))
+				nonZero := p.HasFact(i, func(a *Term, pol bool) bool { return !pol && eqAtom(a, "hookMaxGas", "0") })
+				if r, n := p.Relation(i, keyIs("hookMaxGas"), keyIs("0")); n > 0 && r&rEQ == 0 {
+					nonZero = true
+				}
+				if zeroGas || !nonZero {
+					og.Fail(c.evPos(ev), kind+" runs without hookMaxGas != 0 being established (a zero limit must run nothing)", c.Dump(p, i))
 				}
 				if recovering < 0 {
 					oh3.Fail(c.evPos(ev), kind+" is not preceded by a recovering defer", c.Dump(p, i))
@@ -749,9 +772,9 @@ func propC07(c *Ctx) {
 				ev := &p.Events[i]
 				if ev.Kind == EvCall && strings.HasSuffix(ev.Call.Name, "Keeper).handleBridgeHook") {
 					o7.Sites++
-					a := ev.Call.Args
-					if len(a) != 4 || a[2].Key() != "req.Data" || a[3].Key() != paramsGet+".HookMaxGas" {
-						o7.Fail(c.evPos(ev), "hook called with ("+a[2].Key()+", "+trunc(a[3].Key(), 80)+")", c.Dump(p, i))
+					a := callRoles(ev, hookRoles)
+					if a["data"] == nil || a["hookMaxGas"] == nil || a["data"].Key() != "req.Data" || a["hookMaxGas"].Key() != paramsGet+".HookMaxGas" {
+						o7.Fail(c.evPos(ev), "hook called with (data: "+trunc(a["data"].Key(), 80)+", max gas: "+trunc(a["hookMaxGas"].Key(), 80)+")", c.Dump(p, i))
 					}
 					cred := p.HasFact(i, func(at *Term, pol bool) bool {
 						return pol && at.Op == "extract" && at.Name == "0" && strings.HasSuffix(at.Args[0].Name, "safeDepositToken")
@@ -1202,11 +1225,12 @@ func hookEffectsContained(c *Ctx, rule string) {
 	type tgt struct {
 		typ, name string
 		params    []string
+		roles     map[string]string
 	}
-	for _, t := range []tgt{{"Keeper", "handleBridgeHook", []string{"k", "ctx", "data", "hookMaxGas"}}, {"MsgServer", "safeDepositToken", []string{"ms", "ctx", "toAddr", "coins"}}} {
+	for _, t := range []tgt{{"Keeper", "handleBridgeHook", []string{"k"}, hookRoles}, {"MsgServer", "safeDepositToken", []string{"ms"}, depRoles}} {
 		fn := c.Method(childKeeper, t.typ, t.name)
 		o := c.Ob(rule, t.name+": nothing escapes the cache context before commit (events, store and keeper writes)")
-		for _, p := range c.Paths(fn, PO{Params: t.params, Visits: 3}) {
+		for _, p := range c.Paths(fn, PO{Params: t.params, Roles: t.roles, Visits: 3}) {
 			o.Paths++
 			o.Facts += p.NFacts()
 			var cache *Term
@@ -1278,7 +1302,7 @@ func routedEventsForwarded(c *Ctx, rule string, only ...string) {
 	}
 	for _, t := range []tgt{
 		{"MsgServer", "ExecuteMessages", PO{Params: hParams, Visits: 3, NoInline: []string{".Validate", "checkAdminPermission"}}},
-		{"Keeper", "handleBridgeHook", PO{Params: []string{"k", "ctx", "data", "hookMaxGas"}, Visits: 3}},
+		{"Keeper", "handleBridgeHook", PO{Params: []string{"k"}, Roles: hookRoles, Visits: 3}},
 	} {
 		if len(only) > 0 && !setOf(only...)[t.name] {
 			continue
@@ -1354,4 +1378,209 @@ func routedEventsForwarded(c *Ctx, rule string, only ...string) {
 			o.Fail(c.W.Pos(fn.Pos()), "no committing path with a routed handler call found (floor 1)", nil)
 		}
 	}
+}
+
+// callRoles binds the arguments of a call of a private helper to roles by the types of the
+// callee's parameters: the order of the parameters, and whether they travel separately or in
+// a parameter object, is not part of any property.
+func callRoles(ev *Event, roles map[string]string) map[string]*Term {
+	out := map[string]*Term{}
+	ci, ok := ev.Instr.(ssa.CallInstruction)
+	if !ok || ci == nil || ev.Call == nil {
+		return out
+	}
+	callee := ci.Common().StaticCallee()
+	if callee == nil {
+		return out
+	}
+	sig := callee.Signature
+	off := 0
+	if sig.Recv() != nil {
+		off = 1
+	}
+	for i := 0; i < sig.Params().Len() && i+off < len(ev.Call.Args); i++ {
+		pt := sig.Params().At(i).Type()
+		a := ev.Call.Args[i+off]
+		if r, ok := roles[typeName(pt)]; ok {
+			out[r] = a
+			continue
+		}
+		if st, ok := localStruct(pt); ok {
+			for k := 0; k < st.NumFields(); k++ {
+				if r, ok := roles[typeName(st.Field(k).Type())]; ok {
+					out[r] = project(strip(a), st.Field(k).Name(), st.Field(k).Type())
+				}
+			}
+		}
+	}
+	return out
+}
+
+// successAfterCommit: structural ordering on the SSA form.  Every write of a value other than
+// constant false into a boolean result cell (a named result, or a boolean component of a result
+// object) that happens after the cache context was branched must be dominated by the call of
+// the commit function that CacheContext returned: the recovering defer turns a panic inside
+// commit() into a normal return, which must then still say "failed".
+func successAfterCommit(c *Ctx, o *Obl, fn *ssa.Function) {
+	type at struct {
+		b *ssa.BasicBlock
+		i int
+	}
+	pos := map[ssa.Instruction]at{}
+	for _, b := range fn.Blocks {
+		for i, in := range b.Instrs {
+			pos[in] = at{b, i}
+		}
+	}
+	before := func(a, b ssa.Instruction) bool { // a dominates b
+		pa, pb := pos[a], pos[b]
+		if pa.b == pb.b {
+			return pa.i < pb.i
+		}
+		return pa.b.Dominates(pb.b)
+	}
+	var caches, commits []ssa.Instruction
+	isCommitVal := func(v ssa.Value) bool { return false }
+	isCommitVal = func(v ssa.Value) bool {
+		switch x := v.(type) {
+		case *ssa.Extract:
+			if call, ok := x.Tuple.(*ssa.Call); ok && x.Index == 1 {
+				if cal := call.Common().StaticCallee(); cal != nil && strings.HasSuffix(funcName(cal), "(sdk.Context).CacheContext") {
+					return true
+				}
+			}
+		case *ssa.UnOp:
+			if al, ok := x.X.(*ssa.Alloc); ok && x.Op == token.MUL {
+				n, all := 0, true
+				for _, r := range *al.Referrers() {
+					if st, ok := r.(*ssa.Store); ok && st.Addr == al {
+						n++
+						if !isCommitVal(st.Val) {
+							all = false
+						}
+					}
+				}
+				return n > 0 && all
+			}
+		}
+		return false
+	}
+	resultCell := map[ssa.Value]bool{}
+	var returns []*ssa.Return
+	for _, b := range fn.Blocks {
+		for _, in := range b.Instrs {
+			switch x := in.(type) {
+			case *ssa.Call:
+				if cal := x.Common().StaticCallee(); cal != nil && strings.HasSuffix(funcName(cal), "(sdk.Context).CacheContext") {
+					caches = append(caches, x)
+				}
+				if !x.Common().IsInvoke() && isCommitVal(x.Common().Value) {
+					commits = append(commits, x)
+				}
+			case *ssa.Return:
+				returns = append(returns, x)
+				for _, r := range x.Results {
+					if u, ok := r.(*ssa.UnOp); ok && u.Op == token.MUL {
+						if al, ok := u.X.(*ssa.Alloc); ok {
+							resultCell[al] = true
+						}
+					}
+				}
+			}
+		}
+	}
+	isBool := func(t types.Type) bool {
+		b, ok := t.Underlying().(*types.Basic)
+		return ok && b.Kind() == types.Bool
+	}
+	notFalse := func(v ssa.Value) bool {
+		if k, ok := v.(*ssa.Const); ok && k.Value != nil && isBool(k.Type()) {
+			return constant.BoolVal(k.Value)
+		}
+		return true
+	}
+	check := func(in ssa.Instruction, what string) {
+		cached := false
+		for _, cc := range caches {
+			if before(cc, in) {
+				cached = true
+			}
+		}
+		if !cached {
+			return // before the cache context exists (e.g. the zero-amount branch)
+		}
+		o.Sites++
+		for _, cm := range commits {
+			if before(cm, in) {
+				return
+			}
+		}
+		o.Fail(c.W.Pos(in.Pos()), what+" is not dominated by the commit call: if commit() panics, the recovered return would still report success", nil)
+	}
+	for _, b := range fn.Blocks {
+		for _, in := range b.Instrs {
+			st, ok := in.(*ssa.Store)
+			if !ok || !isBool(st.Val.Type()) || !notFalse(st.Val) {
+				continue
+			}
+			root := st.Addr
+			if fa, ok := root.(*ssa.FieldAddr); ok {
+				root = fa.X
+			}
+			if resultCell[root] {
+				check(st, "raising the success flag")
+			}
+		}
+	}
+	for _, r := range returns {
+		for _, v := range r.Results {
+			if _, isLoad := v.(*ssa.UnOp); isLoad || !isBool(v.Type()) || !notFalse(v) {
+				continue
+			}
+			check(r, "returning success")
+		}
+	}
+	// closures must not raise the flag at all (no ordering information there)
+	for _, an := range fn.AnonFuncs {
+		for _, b := range an.Blocks {
+			for _, in := range b.Instrs {
+				st, ok := in.(*ssa.Store)
+				if !ok || !isBool(st.Val.Type()) || !notFalse(st.Val) {
+					continue
+				}
+				root := st.Addr
+				if fa, ok := root.(*ssa.FieldAddr); ok {
+					root = fa.X
+				}
+				if fv, ok := root.(*ssa.FreeVar); ok {
+					for k, f := range an.FreeVars {
+						if f == fv {
+							if mc, ok := closureBinding(fn, an, k); ok && resultCell[mc] {
+								o.Sites++
+								o.Fail(c.W.Pos(st.Pos()), "a closure raises the success flag (not ordered with commit)", nil)
+							}
+						}
+					}
+				}
+			}
+		}
+	}
+	if len(caches) == 0 || len(commits) == 0 {
+		o.Fail(c.W.Pos(fn.Pos()), fmt.Sprintf("cache context calls=%d, commit calls=%d (floor 1 each)", len(caches), len(commits)), nil)
+	}
+	if o.Sites == 0 {
+		o.Fail(c.W.Pos(fn.Pos()), "no write of the success flag found inside the cached region (floor 1)", nil)
+	}
+}
+
+// closureBinding: the value bound to free variable k of anonymous function an where parent creates it.
+func closureBinding(parent, an *ssa.Function, k int) (ssa.Value, bool) {
+	for _, b := range parent.Blocks {
+		for _, in := range b.Instrs {
+			if mc, ok := in.(*ssa.MakeClosure); ok && mc.Fn == an && k < len(mc.Bindings) {
+				return mc.Bindings[k], true
+			}
+		}
+	}
+	return nil, false
 }
